@@ -65,9 +65,11 @@ def judge_file_outcome(out, reader):
     if out.kind == "budget":
         return [{"oracle": "C07.tool.terminates", "detail": f"{reader} did not terminate (last at {out.where})",
                  "sig": f"C07.tool.terminates|{reader}|{(out.where or '').split(':')[0]}"}]
-    if out.rc not in (None, -1) or (out.rc == -1 and "*** ERROR" not in (out.stdout or "")):
+    # the return value convention is the tool's own business; what the property demands is that a
+    # failing run says so: the error exit (-1 today) must come with a diagnostic on stdout
+    if out.rc == -1 and "error" not in (out.stdout or "").lower():
         return [{"oracle": "C07.tool.stops_with_diagnostic",
-                 "detail": f"{reader} returned {out.rc!r} without the '*** ERROR' diagnostic",
+                 "detail": f"{reader} returned {out.rc!r} without printing any error diagnostic",
                  "sig": f"C07.tool.stops_with_diagnostic|{reader}|rc"}]
     return []
 
